@@ -19,10 +19,10 @@ type MusCase struct {
 	Pre    [][]int `json:"pre,omitempty"`   // with Reuse: a certificate checked (and usually rejected) on the Problem before the extractions
 }
 
-// genMusBig: threshold 3-SAT over 8..14 variables: the solver really searches and learns
+// genMusBig: threshold 3-SAT over 10..14 variables: the solver really searches and learns
 // (units among the learned clauses), and the same Problem is used for several extractions.
 func genMusBig(r *Rng, tier string) MusCase {
-	n := r.Range(8, 14)
+	n := r.Range(10, 14)
 	m := int(float64(n)*4.6) + r.Range(0, n)
 	c := MusCase{NbVars: n, Cnf: genKSat(r, n, m, 3), Reuse: true, Big: true}
 	if r.Bool() {
@@ -162,10 +162,10 @@ func init() {
 		Rule: "CNF problems over 1..6 variables with up to 14 clauses: trivially conflicting units, two disjoint cores, repeated clauses, satisfiable formulas, over-constrained formulas with overlapping cores, over-constrained 3-SAT with repeated literals inside clauses; each handed (through explain.ParseCNF) to MUS, MUSDeletion, MUSInsertion and MUSMaxSat, on fresh Problem values or one after the other on the same value (then in half of the cases after a usually wrong certificate was checked on it with Problem.Unsat). The result is judged by the verified GS.subMultiset and GS.isMUSB; the receiver is compared before/after. Non-trivial = unsatisfiable input that is not already minimal; distinct = distinct clause list.",
 		Gens: []Gen{
 			{Name: "mus", Weight: 4, Make: func(r *Rng, tier string) interface{} { return genMusCase(r, tier) }},
-			{Name: "mus-3sat-reuse", Weight: 1, Make: func(r *Rng, tier string) interface{} { return genMusBig(r, tier) }},
+			{Name: "mus-3sat-reuse", Weight: 3, Make: func(r *Rng, tier string) interface{} { return genMusBig(r, tier) }},
 		},
 		Run:     runMusCase,
-		Cases:   defCases(1500, 40000),
+		Cases:   defCases(3000, 40000),
 		Timeout: defDur(15*time.Second, 60*time.Second),
 		Wall:    defDur(50*time.Second, 12*time.Minute),
 	})
